@@ -1,7 +1,13 @@
 #!/bin/sh
-# Re-extract the model and build the driver.  Run from anywhere.
+# Re-extract the model (one OCaml module per Coq module, under gen/) and build the driver.
 set -e
 cd "$(dirname "$0")"
-coqc -Q ../coq/theories KP ../coq/extraction/Extract.v >/dev/null
-ocamlfind ocamlopt -O2 -w -a -package str model.mli model.ml driver.ml h_*.ml main.ml -o kpmodel 2>&1 | grep -v "options -O2 is only relevant" || true
+rm -rf gen && mkdir -p gen
+( cd gen && coqc -Q ../../coq/theories KP ../../coq/extraction/Extract.v >/dev/null )
+cp driver.ml gen/
+cd gen
+ORDER=$(ocamlfind ocamldep -sort *.mli *.ml)
+# handlers register themselves at initialisation; main (the request loop) must be linked last
+ocamlfind ocamlopt -O2 -w -a $ORDER ../h_*.ml ../main.ml -o ../kpmodel 2>&1 | grep -v "options -O2 is only relevant" || true
+cd ..
 test -x kpmodel
